@@ -12,6 +12,13 @@ Core Lean only.
   preference policy (l.188-227), the MILU reset of the pivot (l.229-241).  `resetInc` abstracts
   `SGN(v)*drop_sum` (real) resp. `z_sgn(v)*drop_sum` (complex, ilu_zpivotL.c:236-241 since the `fix:`
   commit that made the SMILU_2/3 reset add `sgn(pivot)*drop_sum`): `realPivot`, `complexPivot`.
+  The SAME definition is executed at `Float`, `Float32`, `Cx Float`, `Cx Float32` against the values the
+  real routines saw (hook H2 of ilu_[sdcz]pivotL.c, driver `Slu.Drv.IluEvents`: chosen row, return value,
+  reuse flag and every candidate value after reset / interchange / cdiv are compared bit for bit) and
+  reasoned about at `Rat` / `Cx Rat` (`realPivot`, `complexPivot`).  `thr` is `thresh = u * pivmax` with
+  `u` a C double also in the single-precision files (l.216); `iluApply` is the store of the new pivot
+  value, the row interchange and the cdiv through the reciprocal (l.286-306); `Modulus.zabs` mirrors
+  `z_abs` / `c_abs` (dcomplex.c:62-80, scomplex.c:62-80) used by `z_sgn` / `c_sgn`.
 * `replaceCount` — `iinfo` bookkeeping of `[sdcz]gsitrf` (dgsitrf.c:430-437, 551-559): one per column
   for which the policy returned nonzero.
 * `foldPerm`, `invPerm`, `restoreRows` — `[sdcz]gsisx` glue (dgsisx.c:546-584 and 637-655): MC64's
@@ -110,8 +117,8 @@ def scan (inp : PivIn K R) : Scan R := (List.range inp.cands.length).foldl (scan
 /-- the policy of l.188-227 once the column maximum is nonzero: reuse of the remembered pivot
 (`old_pivptr` starts at position 0), else diagonal preference, else the maximum.  Returns the chosen
 position and the new `usepr`. -/
-def choosePtr (inp : PivIn K R) (ds : R) (s : Scan R) (pivmax : R) : Nat × Bool :=
-  let thresh := inp.u * pivmax
+def choosePtr (inp : PivIn K R) (thr : R → R) (ds : R) (s : Scan R) (pivmax : R) : Nat × Bool :=
+  let thresh := thr pivmax
   let tm (k : Nat) : R := testMag inp.milu inp.dropSum ds (inp.cands[k]!).val
   let op := s.oldPtr.getD 0
   if inp.usepr && !(tm op == 0) && decide (tm op ≥ thresh) then (op, true) else
@@ -119,9 +126,10 @@ def choosePtr (inp : PivIn K R) (ds : R) (s : Scan R) (pivmax : R) : Nat × Bool
   | some d => if !(tm d == 0) && decide (tm d ≥ thresh) then (d, false) else (s.pivptr, false)
   | none => (s.pivptr, false)
 
-/-- `ilu_[sd]pivotL`.  `ds` = `drop_sum` seen as a magnitude increment (SMILU_2/3), `ofR` embeds the
-replacement value, `resetInc v` = the increment applied to the chosen pivot by the MILU reset. -/
-def iluPivotChoice (inp : PivIn K R) (ds : R) (ofR : R → K) (resetInc : K → K) : PivOut K :=
+/-- `ilu_[sdcz]pivotL`.  `thr pivmax` = `u * pivmax` (l.216), `ds` = `drop_sum` seen as a magnitude
+increment (SMILU_2/3), `ofR` embeds the replacement value, `resetInc v` = the increment applied to the
+chosen pivot by the MILU reset. -/
+def iluPivotChoice (inp : PivIn K R) (thr : R → R) (ds : R) (ofR : R → K) (resetInc : K → K) : PivOut K :=
   let s := scan inp
   let pivmax : R := if inp.milu.absVariant then s.pivmax + ds else s.pivmax
   let valAt (k : Nat) : K := (inp.cands[k]!).val
@@ -140,7 +148,7 @@ def iluPivotChoice (inp : PivIn K R) (ds : R) (ofR : R → K) (resetInc : K → 
         let p := ((List.range inp.cands.length).find? (fun k => rowAt k == fr)).getD 0
         { ret := inp.jcol + 1, pos := some p, pivrow := fr, usepr := false, pivVal := ofR inp.fillTol }
   else
-    let cp := choosePtr inp ds s pivmax
+    let cp := choosePtr inp thr ds s pivmax
     let ptr2 := cp.1
     let reuse := cp.2
     let pivrow := if reuse then inp.pivrowIn else rowAt ptr2
@@ -152,24 +160,99 @@ def iluPivotChoice (inp : PivIn K R) (ds : R) (ofR : R → K) (resetInc : K → 
     { ret := 0, pos := some ptr2, pivrow := pivrow, usepr := reuse, pivVal := v' }
 end
 
-/-- `SGN(x)` of ilu_dpivotL.c:27 -/
-def sgnR (x : Rat) : Rat := if x ≥ 0 then 1 else -1
+/-- `SGN(x) = ((x)>=0?1:-1)` of ilu_dpivotL.c:28-30 (an `int` that the C code multiplies with `drop_sum`) -/
+def sgnG {R : Type} [Zero R] [One R] [Neg R] [LE R] [DecidableLE R] (x : R) : R := if x ≥ 0 then 1 else -1
 
-/-- the real routines `ilu_[sd]pivotL` in exact arithmetic: `drop_sum` is a real number, the MILU_2/3
-reset adds `SGN(pivot)*drop_sum` -/
-def realPivot (inp : PivIn Rat Rat) : PivOut Rat :=
-  iluPivotChoice inp inp.dropSum id (fun v => sgnR v * inp.dropSum)
+/-- `SGN(x)` at the rationals -/
+def sgnR (x : Rat) : Rat := sgnG x
 
-/-- `z_sgn` (dcomplex.c:120-132): `z / |z|`, and `1` when `|z| = 0`; `t` stands for the modulus `z_abs`
-(irrational in general — the theorems hold for every `t` that is non-negative and vanishes only at 0) -/
-def sgnC (t : Cx Rat → Rat) (z : Cx Rat) : Cx Rat :=
+section
+variable {R : Type} [Inhabited R] [Mag R R] [Zero R] [One R] [Neg R] [Add R] [Mul R] [LT R] [DecidableLT R]
+  [LE R] [DecidableLE R] [BEq R]
+
+/-- the real routines `ilu_[sd]pivotL` over any real scalar type: `drop_sum` is a real number, the
+MILU_2/3 reset adds `SGN(pivot)*drop_sum` (l.265) -/
+def realPivotG (thr : R → R) (inp : PivIn R R) : PivOut R :=
+  iluPivotChoice inp thr inp.dropSum id (fun v => sgnG v * inp.dropSum)
+end
+
+/-- the real routines `ilu_[sd]pivotL` in exact arithmetic -/
+def realPivot (inp : PivIn Rat Rat) : PivOut Rat := realPivotG (fun p => inp.u * p) inp
+
+section
+variable {R : Type} [Inhabited R] [Mag (Cx R) R] [Zero R] [One R] [Neg R] [Add R] [Sub R] [Mul R] [Div R]
+  [LT R] [DecidableLT R] [LE R] [DecidableLE R] [BEq R]
+
+/-- `z_sgn` (dcomplex.c:120-132): `z / |z|`, and `1` when `|z| = 0`; `t` stands for the modulus `z_abs` -/
+def sgnCG (t : Cx R → R) (z : Cx R) : Cx R :=
   if t z == 0 then ⟨1, 0⟩ else ⟨z.re / t z, z.im / t z⟩
 
-/-- the complex routines `ilu_[cz]pivotL` in exact arithmetic: `drop_sum` is a complex number whose real
-part is what the magnitude tests add (`drop_sum.r`), the replacement value is `fill_tol + 0i`, the
-MILU_2/3 reset adds `z_sgn(pivot) * drop_sum` -/
+/-- the complex routines `ilu_[cz]pivotL` over any real scalar type: `drop_sum` is a complex number whose
+real part is what the magnitude tests add (`drop_sum.r`), the replacement value is `fill_tol + 0i`, the
+MILU_2/3 reset adds `z_sgn(pivot) * drop_sum` (zz_mult, l.270-272) -/
+def complexPivotG (thr : R → R) (t : Cx R → R) (inp : PivIn (Cx R) R) : PivOut (Cx R) :=
+  iluPivotChoice inp thr inp.dropSum.re (fun r => ⟨r, 0⟩) (fun v => sgnCG t v * inp.dropSum)
+end
+
+/-- `z_sgn` at the Gaussian rationals; `t` stands for the modulus `z_abs` (irrational in general — the
+theorems hold for every `t` that is non-negative and vanishes only at 0) -/
+def sgnC (t : Cx Rat → Rat) (z : Cx Rat) : Cx Rat := sgnCG t z
+
+/-- the complex routines `ilu_[cz]pivotL` in exact arithmetic -/
 def complexPivot (t : Cx Rat → Rat) (inp : PivIn (Cx Rat) Rat) : PivOut (Cx Rat) :=
-  iluPivotChoice inp inp.dropSum.re (fun r => ⟨r, 0⟩) (fun v => sgnC t v * inp.dropSum)
+  complexPivotG (fun p => inp.u * p) t inp
+
+/-! ### store, row interchange, cdiv (l.206-207 / 258-270, 286-306) -/
+
+section
+variable {K : Type} [One K] [Mul K] [Div K]
+/-- what the routine leaves in the column: the new pivot value is stored at the chosen position
+(`lu_col_ptr[pivptr] = pivmax` resp. the MILU reset), the chosen position is exchanged with position 0
+(row subscript and value), every other value is multiplied by `temp = 1/pivot` (`z_div(&temp,&one,..)`,
+`zz_mult`).  A return without a pivot changes nothing. -/
+def iluApply (cands : List (Cand K)) (o : PivOut K) : List (Cand K) :=
+  match o.pos with
+  | none => cands
+  | some p =>
+    match cands[p]?, cands[0]? with
+    | some pc, some first =>
+      let pv : Cand K := { pc with val := o.pivVal }
+      let swapped := if p = 0 then cands.set 0 pv else (cands.set p first).set 0 pv
+      let temp : K := 1 / pv.val
+      swapped.zipIdx.map fun c => if c.2 = 0 then c.1 else { c.1 with val := c.1.val * temp }
+    | _, _ => cands
+end
+
+/-! ### the modulus used by `z_sgn` / `c_sgn` (floating point only) -/
+
+/-- `z_abs` (dcomplex.c:62-80) resp. `c_abs` (scomplex.c:62-80) -/
+class Modulus (R : Type) where
+  zabs : Cx R → R
+
+/-- `z_abs`: all in double -/
+def zabsF (z : Cx Float) : Float :=
+  let real := if z.re < 0 then -z.re else z.re
+  let imag := if z.im < 0 then -z.im else z.im
+  let hi := if imag > real then imag else real
+  let lo := if imag > real then real else imag
+  if hi + lo == hi then hi else
+  let temp := lo / hi
+  hi * Float.sqrt (1.0 + temp * temp)
+
+/-- `c_abs`: `temp = imag/real` and `temp*temp` in float, `1.0 + .`, `sqrt`, `real * .` in double, the
+result rounded to float (`float temp`) -/
+def zabsF32 (z : Cx Float32) : Float32 :=
+  let real := if z.re < 0 then -z.re else z.re
+  let imag := if z.im < 0 then -z.im else z.im
+  let hi := if imag > real then imag else real
+  let lo := if imag > real then real else imag
+  if hi + lo == hi then hi else
+  let temp : Float32 := lo / hi
+  let t2 : Float32 := temp * temp
+  (hi.toFloat * Float.sqrt (1.0 + t2.toFloat)).toFloat32
+
+instance : Modulus Float := ⟨zabsF⟩
+instance : Modulus Float32 := ⟨zabsF32⟩
 
 /-! ### the dropping oracle -/
 
@@ -188,7 +271,7 @@ then the policy chooses -/
 def iluColumn (drop : DropFn K) (inp : PivIn K R) (dsOf : K → R) (ofR : R → K) (resetInc : K → K → K) : PivOut K :=
   let cands := drop.keep inp.jcol inp.cands
   let dsum := drop.dropSum inp.jcol inp.cands
-  iluPivotChoice { inp with cands := cands, dropSum := dsum } (dsOf dsum) ofR (resetInc dsum)
+  iluPivotChoice { inp with cands := cands, dropSum := dsum } (fun p => inp.u * p) (dsOf dsum) ofR (resetInc dsum)
 end
 
 /-- `iinfo` of `[sdcz]gsitrf`: the number of columns for which the policy returned nonzero -/
